@@ -27,7 +27,9 @@ fn table() -> Vec<(&'static str, RunFn, ReplayFn)> {
         ("C15", props::c15::run as RunFn, props::c15::replay as ReplayFn),
         ("C16", props::c16::run as RunFn, props::c16::replay as ReplayFn),
         ("C17", props::c17::run as RunFn, props::c17::replay as ReplayFn),
+        #[cfg(feature = "sandbox")]
         ("C18", props::c18::run as RunFn, props::c18::replay as ReplayFn),
+        #[cfg(feature = "sandbox")]
         ("C19", props::c19::run as RunFn, props::c19::replay as ReplayFn),
         ("C20", props::c20::run as RunFn, props::c20::replay as ReplayFn),
     ]
@@ -121,6 +123,19 @@ fn main() {
             eprintln!("cannot parse {}: {}", path, e);
             std::process::exit(2)
         });
+        if v["case"].get("preflight").is_some() {
+            match rv::rinkx::try_new_ctx() {
+                Ok(_) => {
+                    println!("REPLAY-PASS property={} file={}", name, path);
+                    std::process::exit(0);
+                }
+                Err(p) => {
+                    println!("VIOLATION property={} replay={}", name, path);
+                    println!("  detail: loading the bundled definitions panicked: {}", p);
+                    std::process::exit(1);
+                }
+            }
+        }
         let mut st = Stats::new();
         let phase = v["phase"].as_str().unwrap_or("replay").to_string();
         match replay_fn(&cx, &phase, &v["case"], &mut st) {
@@ -136,6 +151,24 @@ fn main() {
                 println!("  detail: {}", d);
                 std::process::exit(1);
             }
+        }
+    }
+    // preflight: every property but the two sandbox ones works on a loaded context
+    if name != "C18" && name != "C19" {
+        if let Err(p) = rv::rinkx::try_new_ctx() {
+            let v = Violation {
+                phase: "preflight".into(),
+                case: serde_json::json!({"preflight": "load the bundled definitions"}),
+                detail: format!(
+                    "[{}] loading the bundled definitions panicked, so no query can be answered at all: {}",
+                    panic_signature(&p),
+                    p
+                ),
+            };
+            let path = write_replay(&cx, &v);
+            println!("VIOLATION property={} replay={}", name, path.display());
+            println!("  phase=preflight detail: {}", v.detail);
+            std::process::exit(1);
         }
     }
     let rep = run(&cx);
